@@ -162,7 +162,12 @@ func raceValue(w *World) {
 
 func raceColl(w *World) {
 	t := w.Tape
-	c := resource.NewCollection(resource.WithInitialRecord("a", tam(0)))
+	cs := []*resource.Collection{resource.NewCollection(resource.WithInitialRecord("a", tam(0)))}
+	if t.Flag(1, 3) {
+		// two unrelated resources built the default way, side by side: whatever the package shares between its resources
+		// is shared between unrelated callers
+		cs = append(cs, resource.NewCollection(resource.WithInitialRecord("a", tam(0))))
+	}
 	ids := []string{"a", "b"}
 	nt := 2 + t.Choose(3)
 	lists := make([][]raceOp, nt)
@@ -173,6 +178,7 @@ func raceColl(w *World) {
 			n++
 			x := n
 			id := ids[t.Choose(2)]
+			c := cs[t.Choose(len(cs))]
 			switch t.Choose(8) {
 			case 0:
 				opts := raceWriteOpts(t)
